@@ -110,7 +110,7 @@ def run(ctx, rep):
     # selection
     c = P.fn('state_check_process')
     hw = list(c.calls('handle_write')); hcr = list(c.calls('handle_create'))
-    okw = bool(hw) and all(any('file_flag_has(failed[j].file' in x and not p for x, p in guards_of(c, w_)) for w_ in hw)
+    okw = bool(hw) and all(any('file_flag_has(failed[j].file' in x and not p for x, p in guards_of(c, w_, expand=True)) for w_ in hw)
     okc = bool(hcr) and all(any('file_flag_has(file' in x and not p for x, p in guards_of(c, w_)) for w_ in hcr)
     rep.check(okw and okc, 'R-C18-4', 'fix: handle_create / handle_write only for files not excluded by the selection', c.file, '', function='state_check_process', construct='excluded not written')
     sf = P.fn('state_filter')
